@@ -133,6 +133,8 @@ impl<'a, 't> ObjectTree<'a, 't> {
         // "label1" from (QLabel, 1) and (Label1, 0)
         let mut reserved_map: HashMap<String, ()> =
             self.id_map.keys().map(|k| (k.clone(), ())).collect();
+        // <addaction name="separator"/> doesn't refer to an object, but inserts a separator
+        reserved_map.insert("separator".to_owned(), ());
         for data in self.nodes.iter_mut().filter(|d| d.name.is_none()) {
             let prefix = qtname::variable_name_for_type(data.class.name());
             let name = gen.generate_with_reserved_map(prefix, &reserved_map);
